@@ -19,8 +19,8 @@ from sismic.interpreter import Interpreter
 from sismic.model import Statechart, CompoundState, BasicState, FinalState, Transition, Event
 
 BOUNDS = {
-    'quick': {'D1': 2, 'D2': 1, 'D3': 2, 'D4': 3, 'D5': 2, 'D6': 2, 'D7': 2, 'D8': 3, 'D9': 2, 'D10': 2, 'D11': 2, 'D12': 1, 'D13': 1},
-    'thorough': {'D1': 3, 'D2': 2, 'D3': 3, 'D4': 4, 'D5': 3, 'D6': 3, 'D7': 3, 'D8': 4, 'D9': 3, 'D10': 3, 'D11': 3, 'D12': 2, 'D13': 2},
+    'quick': {'D1': 2, 'D2': 1, 'D3': 2, 'D4': 3, 'D5': 2, 'D6': 2, 'D7': 2, 'D8': 3, 'D9': 2, 'D10': 2, 'D11': 2, 'D12': 1, 'D13': 1, 'D14': 1, 'D15': 2},
+    'thorough': {'D1': 3, 'D2': 2, 'D3': 3, 'D4': 4, 'D5': 3, 'D6': 3, 'D7': 3, 'D8': 4, 'D9': 3, 'D10': 3, 'D11': 3, 'D12': 2, 'D13': 2, 'D14': 2, 'D15': 3},
 }
 _CUR = [None]
 
@@ -294,9 +294,39 @@ def D13(w):
     return [client], {'drain': [1, 2, 3]}
 
 
-DRIVERS = {'D13': D13, 'D12': D12, 'D9': D9, 'D10': D10, 'D11': D11, 'D1': D1, 'D2': D2, 'D3': D3, 'D4': D4, 'D5': D5, 'D6': D6, 'D7': D7, 'D8': D8}
+def _start(w, tag='start'):
+    w.ex.note(tag + ':call')
+    try:
+        w.runner.start()
+        w.ex.note(tag + ':return')
+    except RuntimeError:
+        w.ex.note(tag + ':refused')
+
+
+def D14(w):
+    # stop() on a runner that was never started, then start(): stop() has returned, nothing may execute afterwards
+    def client():
+        w.queue('e', 1)
+        w.op('stop')
+        _start(w)
+        w.ex.point('client-idle')
+    return [client], {'drain': []}
+
+
+def D15(w):
+    # one client starts the runner while another one stops it
+    def c1():
+        w.queue('e', 1)
+        _start(w)
+
+    def c2():
+        w.op('stop')
+    return [c1, c2], {'drain': [], 'two_clients': True}
+
+
+DRIVERS = {'D15': D15, 'D14': D14, 'D13': D13, 'D12': D12, 'D9': D9, 'D10': D10, 'D11': D11, 'D1': D1, 'D2': D2, 'D3': D3, 'D4': D4, 'D5': D5, 'D6': D6, 'D7': D7, 'D8': D8}
 EXECUTE_ALL = {'D5', 'D7'}
-PREINIT = {'D2', 'D3', 'D9', 'D10', 'D11', 'D12', 'D13'}
+PREINIT = {'D2', 'D3', 'D9', 'D10', 'D11', 'D12', 'D13', 'D14', 'D15'}
 
 
 def run_one(dname, prefix):
